@@ -50,7 +50,7 @@ H("k07a_stored_rewrite_7", "deflate_reader", ["C07", "C03", "C05", "C02"], unwin
   claim="stored block: parse -> re-serialise gives back exactly the consumed bytes; plaintext, final flag and consumed length equal the RFC 1951 reading",
   functions=STORED_FUNCS, bounds="all 7-byte inputs whose first block is stored and is accepted (payload 0..=2, all padding bit patterns, both final-flag values)",
   outside="payloads longer than N-5 bytes", assumptions=["input seam Src<N>: parse must finish within N bytes (assume(false) beyond)"])
-H("k07a_stored_rewrite_10", "deflate_reader", ["C07", "C03"], tier="thorough", unwind=12, timeout=1500, mem_gb=12,
+H("k07a_stored_rewrite_10", "deflate_reader", ["C07", "C03"], unwind=12, timeout=1500, mem_gb=12,
   claim="as k07a_stored_rewrite_7 with N = 10", functions=STORED_FUNCS, bounds="all 10-byte inputs, payload 0..=5",
   assumptions=["input seam Src<N>"])
 
@@ -62,15 +62,15 @@ FIXED_ASSUME = ["fixed Huffman tables = constants printed natively from the curr
 FIXED_UW = {"decode_symbol": 11, "BitReader.*get": 6, "bit_writer::BitWriter::flush_whole_bytes": 5, "bit_writer::BitWriter::pad": 9}
 FIXED_UW = {"decode_symbol": 11, "BitReader.*get": 6, "bit_writer::BitWriter::flush_whole_bytes": 5, "bit_writer::BitWriter::pad": 9,
             "decode_block": 3, "RefBits.*::bits": 14, "RefBits.*code_bits": 8, "ref_fixed_block": 10, "fixed_rewrite": 10}
-H("k07b_fixed_token_6", "deflate_reader", ["C07", "C03", "C02", "C05"], tier="thorough", unwind=7, unwindset=FIXED_UW, timeout=1500, mem_gb=14, needs_gen=True,
+H("k07b_fixed_token_6", "deflate_reader", ["C07", "C03", "C02", "C05"], tier="experimental", unwind=7, unwindset=FIXED_UW, timeout=1500, mem_gb=14, needs_gen=True,
   claim="fixed-Huffman block with one token: token and consumed length equal the RFC 1951 reference decoder's, and parse -> re-serialise reproduces the consumed bytes",
   functions=FIXED_FUNCS, bounds="every fixed-Huffman block holding at most one token then EOB within 6 bytes: all 256 literals, every (length 3..258, distance 1..32768) with every extra-bit pattern, length 258 as 285 and as 284+31, all final padding patterns, both final-flag values",
   outside="blocks with 2 or more tokens (k07b_fixed_rewrite_3)", assumptions=FIXED_ASSUME + ["write_literal/write_reference stubbed to no-ops, window pre-filled with 32768 bytes so every distance is legal (plaintext is checked by k03b_fixed_plain_3)",
               "token-count bound assumed on the RFC reference before the real decoder runs; the real decoder's unwinding assertion discharges it"])
-H("k07b_fixed_rewrite_3", "deflate_reader", ["C07", "C03", "C05"], tier="thorough", unwind=7, unwindset=dict(FIXED_UW, decode_block=4), timeout=1200, mem_gb=14, needs_gen=True,
+H("k07b_fixed_rewrite_3", "deflate_reader", ["C07", "C03", "C05"], tier="experimental", unwind=7, unwindset=dict(FIXED_UW, decode_block=4), timeout=1200, mem_gb=14, needs_gen=True,
   kani_args=["-Z", "unstable-options", "--no-memory-safety-checks"],
   claim="as k07b_fixed_token_6 for blocks of <= 2 tokens", functions=FIXED_FUNCS, bounds="every fixed-Huffman block with <= 2 tokens ending within 3 bytes", assumptions=FIXED_ASSUME)
-H("k03b_fixed_plain_3", "deflate_reader", ["C03", "C05"], tier="thorough", unwind=7, unwindset=dict(FIXED_UW, decode_block=4, write_reference=120, **{"fixed_rewrite": 125}), timeout=1500, mem_gb=14, needs_gen=True,
+H("k03b_fixed_plain_3", "deflate_reader", ["C03", "C05"], tier="experimental", unwind=7, unwindset=dict(FIXED_UW, decode_block=4, write_reference=120, **{"fixed_rewrite": 125}), timeout=1500, mem_gb=14, needs_gen=True,
   claim="plain_text produced by the real write_literal/write_reference equals the replay of the RFC reference's tokens over the same window",
   functions=FIXED_FUNCS + ["DeflateReader::write_literal", "DeflateReader::write_reference"], bounds="fixed blocks of <= 2 tokens within 3 bytes over a 4-byte window (distances 1..4+produced, lengths up to 114)",
   assumptions=FIXED_ASSUME)
@@ -85,7 +85,7 @@ H("k07x_dynamic_token_write", "huffman_encoding", ["C07", "C02"], unwind=6, unwi
   functions=["DeflateWriter::encode_block_with_decoder", "HuffmanWriter::write_literal/write_distance", "BitWriter::write/flush_whole_bytes/pad", "quantize_* + tables"],
   bounds="every length 3..=258 x distance 1..=32768 x code lengths 1..=15 and code values x 0..=7 pending bits", outside="literal tokens under dynamic codes (same write_literal path), irregular 258 under dynamic codes",
   assumptions=["BitWriter::flush_whole_bytes replaced by an equivalent that appends into reserved capacity without reallocation (real one runs in k07a / k02f)"])
-H("k07b0_fixed_tables_eq", "huffman_encoding", ["C07", "C03"], tier="thorough", unwind=4, unwindset={"huffman": 600, "k07b0": 600, "Vec|vec": 600}, timeout=3000, mem_gb=16, needs_gen=True,
+H("k07b0_fixed_tables_eq", "huffman_encoding", ["C07", "C03"], tier="experimental", unwind=4, unwindset={"huffman": 600, "k07b0": 600, "Vec|vec": 600}, timeout=3000, mem_gb=16, needs_gen=True,
   claim="HuffmanReader::create_fixed / HuffmanWriter::start_fixed_huffman_table return exactly the precomputed constants", functions=["HuffmanReader::create_fixed", "HuffmanWriter::start_fixed_huffman_table", "calculate_huffman_code_tree", "calc_huffman_codes"],
   bounds="concrete (no symbolic input)")
 H("k03d_fixed_code_vs_rfc", "huffman_encoding", ["C03", "C07"], unwind=12, timeout=600, needs_gen=True,
@@ -125,13 +125,13 @@ SCAN_CONTRACTS = ["contract stub decompress_deflate_stream: Err | Ok with 1 <= c
                   "contract stub parse_idat: Err | Ok with 12 <= total_chunk_length <= len (discharged by k01e_idat_total)"]
 SCAN_UW = {"next_signature": 1060, "check_tiling": 8, "split_into_deflate_streams": 4}
 SCAN_BOUNDS = "look-alikes at concrete offsets in an otherwise zero file (places and kinds concrete per instance) x every outcome the callees' contracts allow (Ok/Err, sizes, positions: symbolic)"
-H("k01a_scan_tiling_single", "scan_deflate", ["C01", "C05"], tier="thorough", unwind=5, unwindset=SCAN_UW, timeout=5400, mem_gb=44,
+H("k01a_scan_tiling_single", "scan_deflate", ["C01", "C05"], tier="experimental", unwind=5, unwindset=SCAN_UW, timeout=5400, mem_gb=44,
   claim="split_into_deflate_streams never panics and its chunks tile the file exactly (every literal length within the remaining bytes) for one look-alike of each kind (zlib, gzip, zip, IDAT) in a 1056-byte file",
   functions=["scan_deflate::split_into_deflate_streams", "scan_deflate::next_signature"], bounds=SCAN_BOUNDS, outside="symbolic file bytes (8 symbolic bytes needed > 20 GB), more than two look-alikes", assumptions=SCAN_CONTRACTS)
-H("k01a_scan_tiling_pairs", "scan_deflate", ["C01", "C05"], tier="thorough", unwind=5, unwindset=SCAN_UW, timeout=1800, mem_gb=16,
+H("k01a_scan_tiling_pairs", "scan_deflate", ["C01", "C05"], tier="experimental", unwind=5, unwindset=SCAN_UW, timeout=1800, mem_gb=16,
   claim="as k01a_scan_tiling_single for an IDAT look-alike shortly after a zlib look-alike (look-back into an accepted stream) and for two zlib look-alikes",
   functions=["scan_deflate::split_into_deflate_streams", "scan_deflate::next_signature"], bounds=SCAN_BOUNDS, assumptions=SCAN_CONTRACTS)
-H("k01a_scan_tiling_short", "scan_deflate", ["C01", "C05"], tier="thorough", unwind=5, unwindset=dict(SCAN_UW, next_signature=8), timeout=1800, mem_gb=16,
+H("k01a_scan_tiling_short", "scan_deflate", ["C01", "C05"], tier="experimental", unwind=5, unwindset=dict(SCAN_UW, next_signature=8), timeout=1800, mem_gb=16,
   claim="as k01a_scan_tiling_single for files of 3, 4 and 6 bytes (look-alikes at the very end, IDAT with fewer than 4 bytes before it)",
   functions=["scan_deflate::split_into_deflate_streams", "scan_deflate::next_signature"], bounds=SCAN_BOUNDS, assumptions=SCAN_CONTRACTS)
 H("k01a_scan_reject_all_8", "scan_deflate", ["C01", "C11", "C12"], unwind=6, unwindset=dict(SCAN_UW, next_signature=10, k01a_scan_reject=6), timeout=1800, mem_gb=16,
@@ -163,9 +163,9 @@ for nm, cl, bd in (("one_chunk", "one IDAT chunk of 7 payload bytes, nothing beh
     H("k01e_idat_" + nm, "idat_parse", ["C01", "C05"], unwind=6, unwindset=IDAT_UW, timeout=1500, mem_gb=24,
       claim="parse_idat is total (Ok or Err, no panic) on " + cl + "; Ok implies 12 <= total_chunk_length <= len, total = sum of chunks + 12 each, payload = chunk data minus 6, no zero-length chunk recorded",
       functions=IDAT_FUNCS[:1], bounds=bd + "; all payload, CRC and trailing bytes symbolic", assumptions=IDAT_ASSUME)
-H("k01e_idat_recreate", "idat_parse", ["C01"], unwind=6, unwindset=IDAT_UW, timeout=3000, mem_gb=40, tier="thorough",
+H("k01e_idat_recreate", "idat_parse", ["C01"], unwind=6, unwindset=IDAT_UW, timeout=3000, mem_gb=40, tier="experimental",
   claim="recreate_idat(parse_idat(x)) reproduces exactly the consumed input bytes", functions=IDAT_FUNCS, bounds="one chunk of 7 payload bytes, all symbolic", assumptions=IDAT_ASSUME)
-H("k01e_idat_real_crc", "idat_parse", ["C01"], unwind=9, unwindset=IDAT_UW, timeout=3000, mem_gb=24, tier="thorough",
+H("k01e_idat_real_crc", "idat_parse", ["C01"], unwind=9, unwindset=IDAT_UW, timeout=3000, mem_gb=24, tier="experimental",
   claim="as k01e_idat_one_chunk with the real bit-serial CRC-32", functions=IDAT_FUNCS + ["crc32fast shim"], bounds="one chunk, 6 payload bytes", assumptions=IDAT_ASSUME[:1])
 
 # ---------------------------------------------------------------- container chunks, I/O faults (C01, C13), zstd (C11), C ABI (C12)
@@ -223,11 +223,11 @@ H("k02b_ld_mirror_14_3", "tree_predictor", ["C02", "C08"], unwind=16, timeout=12
   claim="reconstruct_ld_trees(predict_ld_trees(pred, target)) == target and the codec is consumed exactly, for every predicted length vector and every target RLE sequence",
   functions=TREE_FUNCS, bounds="predicted vectors of length <= 14 (any u8 values), target sequences of <= 3 RLE items (Code 0..15, Repeat 3..6, ZeroShort 3..10, ZeroLong 11..14) covering the vector exactly",
   assumptions=["recording codec Rec"])
-H("k02b_ld_mirror_24_4", "tree_predictor", ["C02", "C08"], tier="thorough", unwind=26, timeout=3000, mem_gb=20,
+H("k02b_ld_mirror_24_4", "tree_predictor", ["C02", "C08"], tier="experimental", unwind=26, timeout=3000, mem_gb=20,
   claim="as k02b_ld_mirror_14_3 with vectors <= 24 and <= 4 items", functions=TREE_FUNCS, bounds="L <= 24, K <= 4", assumptions=["recording codec Rec"])
 H("k02c_tree_mirror", "tree_predictor", ["C02", "C08", "C05"], unwind=8, unwindset={"predict_code_type": 12, "predict_code_data": 140, "k02c": 21, "stub_calc_bit_lengths": 21,
   "calc_tc_lengths": 20, "predict_tree_for_block": 20, "recreate_tree_for_block": 20},
-  timeout=2400, mem_gb=20, tier="thorough",
+  timeout=2400, mem_gb=20, tier="experimental",
   claim="recreate_tree_for_block(predict_tree_for_block(header)) == header: HLIT/HDIST/HCLEN flags and values, RLE items, code-length-alphabet corrections",
   functions=["tree_predictor::predict_tree_for_block", "tree_predictor::recreate_tree_for_block", "calc_tc_lengths_without_trailing_zeros", "calc_codetree_freq"] + TREE_FUNCS,
   bounds="HLIT 257..288, HDIST 1..32, HCLEN 4..19, predicted counts 257..286/1..30/1..19 symbolic, 3 RLE items (two long zero runs + any third), code-length-alphabet lengths any 0..7",
@@ -255,14 +255,14 @@ TOKEN_FUNCS = ["TokenPredictor::predict_block", "TokenPredictor::recreate_block"
                "prefix_compare", "encode_difference/decode_difference"]
 TOKEN_UW = dict(HOLDER_UW, **{"predict_block": 5, "recreate_block": 6, "any_tokens": 5, "token_mirror": 5, "same_ops": 50, "same_dictionary_updates": 18, "ModelChain.*update_hash": 10})
 # measured: out of memory (20 GB) within 6-10 min even at text 6 / 2 tokens / 1 candidate: thorough tier only, NOT part of any quick claim
-for nm, lazy, w, tier in (("greedy_h3", False, 3, "thorough"), ("lazy_h3", True, 3, "thorough"), ("greedy_h4", False, 4, "thorough"), ("lazy_h4", True, 4, "thorough")):
+for nm, lazy, w, tier in (("greedy_h3", False, 3, "experimental"), ("lazy_h3", True, 3, "experimental"), ("greedy_h4", False, 4, "experimental"), ("lazy_h4", True, 4, "experimental")):
     H("k02e_token_mirror_" + nm, "token_predictor", ["C02", "C08", "C05"], unwind=6, unwindset=TOKEN_UW, timeout=5400, mem_gb=44, tier=tier,
       claim="recreate_block(predict_block(tokens)) == tokens and the corrections are consumed exactly, or predict_block returns Err; no panic (%s matching rows, %d-byte hash width)" % ("lazy" if lazy else "greedy", w),
       functions=TOKEN_FUNCS, bounds="texts of <= 6 bytes, every valid tokenisation of a prefix into <= 2 tokens (literals / valid references, irregular-258 flag), <= 1 candidate per position and offset, fixed or dynamic block type, last/non-last, every parameter vector in estimator_range with %s matching" % ("lazy" if lazy else "greedy"),
       outside="longer texts, more tokens, longer chains, the real hash tables", assumptions=MODEL_ASSUME + ["recording codec Rec"])
-H("k02e_token_mirror_lazy_h3_t8", "token_predictor", ["C02", "C08"], unwind=6, unwindset=TOKEN_UW, timeout=7200, mem_gb=40, tier="thorough",
+H("k02e_token_mirror_lazy_h3_t8", "token_predictor", ["C02", "C08"], unwind=6, unwindset=TOKEN_UW, timeout=7200, mem_gb=40, tier="experimental",
   claim="as k02e_token_mirror_lazy_h3 with text <= 8, <= 3 tokens, <= 2 candidates", functions=TOKEN_FUNCS, bounds="T <= 8, 3 tokens, 2 candidates", assumptions=MODEL_ASSUME + ["recording codec Rec"])
-H("k02f_block_structure", "process", ["C02", "C08", "C05"], tier="thorough", unwind=6, unwindset={"bit_writer::BitWriter::pad": 9, "k02f": 12, "same_ops": 50}, timeout=2400, mem_gb=20, needs_gen=True,
+H("k02f_block_structure", "process", ["C02", "C08", "C05"], tier="experimental", unwind=6, unwindset={"bit_writer::BitWriter::pad": 9, "k02f": 12, "same_ops": 50}, timeout=2400, mem_gb=20, needs_gen=True,
   claim="decode_mispredictions(encode_mispredictions(blocks)) reproduces exactly the bytes the real writer emits for the blocks: block types, stored length/padding, TokenCount signalling, empty blocks, EOF flags, final padding",
   functions=["process::encode_mispredictions", "process::predict_blocks", "process::decode_mispredictions", "process::recreate_blocks", "TokenPredictor::predict_block/recreate_block (literal-only paths)",
              "DeflateWriter::encode_block", "DeflateWriter::flush_with_padding"],
@@ -280,7 +280,7 @@ def K4(name, module, claim, functions, bounds, **kw):
 K4("k04a_hash_equiv", "hash_algorithm", "the shift/xor/table hash functions (zlib rotating, miniz, random vector, crc32c) return the reference build's value", ["*Hash::get_hash", "num_hash_bytes"],
    "every 4-byte input; Zlib rotating hash with every mask and shift <= 15", unwind=5, timeout=900)
 K4("k04a_hash_equiv_mul", "hash_algorithm", "the multiplicative hash functions (libdeflate 4-byte, fast variant, secondary 3-byte, zlib-ng) return the reference build's value", ["*Hash::get_hash", "num_hash_bytes"],
-   "every 4-byte input", unwind=5, timeout=3000, tier="thorough")
+   "every 4-byte input", unwind=5, timeout=3000, tier="experimental")
 K4("k04b_enum_discriminants", "statistical_codec", "numbering of the enums written as values (strategies, block types, tree code types), chunk tags, version and match constants equals the reference build's (context-enum numbering is deliberately not compared: a permutation of equally-initialised slots is not a format change)",
    ["enum discriminants", "format constants"], "all variants (concrete)", unwind=21, timeout=600)
 K4("k04c_add_policy_calls", "add_policy_estimator", "DictionaryAddPolicy::update_hash makes the same dictionary insertions as the reference build and only in-range ones; is_at_32k_boundary agrees",
@@ -288,33 +288,33 @@ K4("k04c_add_policy_calls", "add_policy_estimator", "DictionaryAddPolicy::update
 K4("k03a_tables", "preflate_constants", "length/distance base and extra tables equal RFC 1951's, quantize_* selects the code whose range contains the value, code-length order equals the RFC's; all equal the reference build's",
    ["quantize_length", "quantize_distance", "LENGTH_/DIST_ BASE/EXTRA tables", "TREE_CODE_ORDER_TABLE"], "all 29/30 codes, all lengths 3..=258, all distances 1..=32768", unwind=3, timeout=600, also=["C03", "C07"])
 K4("k04d_zlib_lengths_3", "huffman_calc", "zlib-style Huffman length calculation returns the reference build's code lengths (tie-breaks included)", ["huffman_calc::calc_zlib::calc_bit_lengths", "pqdownheap"],
-   "3 symbols, frequencies 0..=3, limit 7", unwind=8, timeout=1500, mem_gb=16, outside="more symbols / larger frequencies: a tie-break change that needs > 4 symbols escapes", tier="thorough")
-K4("k04d_zlib_lengths_4", "huffman_calc", "as k04d_zlib_lengths_3 with 4 symbols", ["huffman_calc::calc_zlib::calc_bit_lengths"], "4 symbols, frequencies 0..=3, limit 7", unwind=9, timeout=3000, mem_gb=20, tier="thorough")
+   "3 symbols, frequencies 0..=3, limit 7", unwind=8, timeout=1500, mem_gb=16, outside="more symbols / larger frequencies: a tie-break change that needs > 4 symbols escapes", tier="experimental")
+K4("k04d_zlib_lengths_4", "huffman_calc", "as k04d_zlib_lengths_3 with 4 symbols", ["huffman_calc::calc_zlib::calc_bit_lengths"], "4 symbols, frequencies 0..=3, limit 7", unwind=9, timeout=3000, mem_gb=20, tier="experimental")
 K4("k04e_rle_predictor_equiv", "tree_predictor", "predict_code_type / predict_code_data return the reference build's prediction", ["predict_code_type", "predict_code_data"],
    "every slice of 1..=12 code lengths, with/without previous code, every code type", unwind=14, timeout=900)
 K4("k04e_rle_long_runs", "tree_predictor", "run-length thresholds (3, 6, 10, 11, 138) agree with the reference build on long runs", ["predict_code_type", "predict_code_data"],
    "all-zero and all-equal runs of every length 1..=140 (concrete content, symbolic length)", unwind=142, timeout=1500, mem_gb=12)
 K4("k04e_ld_ops_equiv", "tree_predictor", "calc_tc_lengths_without_trailing_zeros, calc_codetree_freq and the correction sequence of predict_ld_trees equal the reference build's",
-   ["calc_tc_lengths_without_trailing_zeros", "predict_ld_trees", "calc_codetree_freq"], "all 19-entry length vectors; predicted vectors <= 10 with <= 2 RLE items", unwind=21, timeout=1500, mem_gb=14, tier="thorough")
+   ["calc_tc_lengths_without_trailing_zeros", "predict_ld_trees", "calc_codetree_freq"], "all 19-entry length vectors; predicted vectors <= 10 with <= 2 RLE items", unwind=21, timeout=1500, mem_gb=14, tier="experimental")
 K4("k04f_param_header_equiv", "preflate_parameter_estimator", "PreflateParameters::write emits the same field sequence (order, widths, values) as the reference build", ["PreflateParameters::write"],
    "every parameter vector in estimator_range with min_len set", unwind=42, timeout=900)
 K4("k04g_nodict_params_equiv", "preflate_parameter_estimator", "the parameter vector estimated for dictionary-free streams (incl. default block size 16386) equals the reference build's",
-   ["estimate_preflate_parameters (Store / HuffOnly branch)", "extract_preflate_info", "estimate_preflate_strategy", "estimate_preflate_huff_strategy"], "one stored block / one literal-only fixed block (concrete)", unwind=42, timeout=900, mem_gb=16, tier="thorough")
+   ["estimate_preflate_parameters (Store / HuffOnly branch)", "extract_preflate_info", "estimate_preflate_strategy", "estimate_preflate_huff_strategy"], "one stored block / one literal-only fixed block (concrete)", unwind=42, timeout=900, mem_gb=16, tier="experimental")
 K4("k04h_cabac_symbols_equiv", "cabac_codec", "binarisation: the bits put on the arithmetic coder for two operations + finish, their bypass/adaptive split and the partition of symbols into adaptive context slots (up to renaming) equal the reference build's; encode/decode_difference agree",
    ["PredictionCabacContext::encode_*", "write_exp_encoded", "flush_encode", "encode_difference", "decode_difference"], "all pairs of operations (3 kinds each), values < 16, widths 1..=4", unwind=18, unwindset={"k04h": 26}, timeout=1800, mem_gb=16)
 K4("k04i_container_bytes_equiv", "preflate_container", "varint bytes, literal chunk framing and IDAT descriptor layout equal the reference build's", ["write_varint", "write_chunk_block (literal)", "IdatContents::write_to_bytestream"],
-   "every u32; literal data <= 3 bytes; <= 2 chunk sizes < 2^28", unwind=22, timeout=900, also=["C01"], tier="thorough")
+   "every u32; literal data <= 3 bytes; <= 2 chunk sizes < 2^28", unwind=22, timeout=900, also=["C01"], tier="experimental")
 
 # ---------------------------------------------------------------- C06: detection with an offset oracle
 C06_ASSUME = ["decompress_deflate_stream replaced by an offset oracle: accepts (1025 bytes of plaintext) exactly at the true stream start, rejects elsewhere, asserts verify = true",
               "prefix/suffix: 2 symbolic bytes each; the wrapper's own signature is the only signature look-alike in the file"]
-H("k06a_find_zlib", "scan_deflate", ["C06"], tier="thorough", unwind=6, unwindset={"next_signature": 12, "signature_hits": 12}, timeout=1200, mem_gb=16,
+H("k06a_find_zlib", "scan_deflate", ["C06"], tier="experimental", unwind=6, unwindset={"next_signature": 12, "signature_hits": 12}, timeout=1200, mem_gb=16,
   claim="a stream behind 78 01 / 78 5E / 78 9C / 78 DA is emitted as a DeflateStream chunk starting exactly after the 2-byte header", functions=["split_into_deflate_streams (zlib arm)", "next_signature"],
   bounds="4 headers x arbitrary 2-byte prefix/suffix", assumptions=C06_ASSUME)
-H("k06b_find_gzip", "scan_deflate", ["C06"], tier="thorough", unwind=6, unwindset={"next_signature": 32, "signature_hits": 32, "k06b": 4, "skip_gzip_header": 5}, timeout=1800, mem_gb=20,
+H("k06b_find_gzip", "scan_deflate", ["C06"], tier="experimental", unwind=6, unwindset={"next_signature": 32, "signature_hits": 32, "k06b": 4, "skip_gzip_header": 5}, timeout=1800, mem_gb=20,
   claim="a stream behind a gzip header with any subset of FEXTRA/FNAME/FCOMMENT/FHCRC is emitted as a DeflateStream chunk starting exactly after the header",
   functions=["split_into_deflate_streams (gzip arm)", "skip_gzip_header", "next_signature"], bounds="all 16 flag subsets, FEXTRA length 0..=2, name/comment length 0..=2, any mtime/xfl/os bytes", assumptions=C06_ASSUME)
-H("k06c_find_zip", "scan_deflate", ["C06"], tier="thorough", unwind=6, unwindset={"next_signature": 42, "signature_hits": 42}, timeout=1800, mem_gb=20,
+H("k06c_find_zip", "scan_deflate", ["C06"], tier="experimental", unwind=6, unwindset={"next_signature": 42, "signature_hits": 42}, timeout=1800, mem_gb=20,
   claim="a stream behind a ZIP local file header (method 8) is emitted as a DeflateStream chunk starting exactly after name and extra field",
   functions=["split_into_deflate_streams (zip arm)", "parse_zip_stream", "ZipLocalFileHeader::create_and_load"], bounds="name/extra lengths 0..=2 each, all other header fields arbitrary", assumptions=C06_ASSUME)
 
@@ -324,7 +324,7 @@ H("k05d_info_params", "preflate_parameter_estimator", ["C05", "C02", "C08"], unw
              "PreflateParameters::write", "PreflateParameters::read"],
   bounds="every list of <= 2 blocks (stored / fixed / dynamic) with <= 2 tokens each (literals, references 3..=258 / 1..=32768)",
   assumptions=["estimate_preflate_comp_level and estimate_add_policy replaced by range stubs (results in recommend()'s range, min_len and add_policy passed through): the table-based estimators are out of reach"])
-H("k02h_add_policy_range", "add_policy_estimator", ["C02", "C08"], tier="thorough", unwind=5, unwindset={"estimate_add_policy": 262}, timeout=1800, mem_gb=20,
+H("k02h_add_policy_range", "add_policy_estimator", ["C02", "C08"], tier="experimental", unwind=5, unwindset={"estimate_add_policy": 262}, timeout=1800, mem_gb=20,
   claim="estimate_add_policy returns limits that fit the parameter header's 8-bit field", functions=["add_policy_estimator::estimate_add_policy"],
   bounds="one block: literal, reference (len 3..=258, dist 1), reference (len 3..=258, any distance into the previous match)", outside="longer token sequences")
 
@@ -345,7 +345,7 @@ H("k13c_recreate_idat_partial_writes", "idat_parse", ["C13", "C01"], unwind=6, u
 H("k03f_write_reference", "deflate_reader", ["C03"], unwind=4, unwindset={"write_reference": 260}, timeout=2400, mem_gb=20,
   claim="DeflateReader::write_reference implements the RFC 1951 window copy (each new byte equals the byte `dist` back), no out-of-range index",
   functions=["DeflateReader::write_reference"], bounds="every distance 1..=64 (symbolic) x lengths 3 and 70 (overlapping copy) over a 64-byte window with position-dependent content; the checked output index is symbolic")
-H("k03f_write_reference_far", "deflate_reader", ["C03"], tier="thorough", unwind=4, unwindset={"write_reference": 260}, timeout=2400, mem_gb=20,
+H("k03f_write_reference_far", "deflate_reader", ["C03"], tier="experimental", unwind=4, unwindset={"write_reference": 260}, timeout=2400, mem_gb=20,
   claim="as k03f_write_reference at the far end of a full window", functions=["DeflateReader::write_reference"],
   bounds="(distance, length) = (32768,258) (32768,3) (32767,258) (4096,3) over a 32768-byte window", outside="other distances above 300")
 G_UW = {"decode_symbol": 11, "BitReader.*get": 4, "put_bits": 14, "put_code": 10, "k03g": 32, "read_block": 3, "decode_block": 3}
@@ -361,7 +361,7 @@ for nm, tier in (("len_27_28", "quick"), ("dist_28_29", "quick"), ("len_24_28", 
 
 K4("k04j_predict_block_equiv", "token_predictor", "predict_block emits the same correction sequence as the reference build for the same text, tokens, parameters and candidate lists (walk order, nice-length cut-off, lazy rule, hop counting, length/distance corrections)",
    ["TokenPredictor::predict_block", "TokenPredictor::predict_token", "repredict_reference", "HashChainHolderImpl::{match_token_offset, calculate_hops}", "encode_difference"],
-   "texts <= 7 bytes, <= 3 tokens, <= 2 candidates per position, every parameter vector in estimator_range, 3-byte hash width", unwind=6, unwindset=TOKEN_UW, timeout=5400, mem_gb=30, tier="thorough")
+   "texts <= 7 bytes, <= 3 tokens, <= 2 candidates per position, every parameter vector in estimator_range, 3-byte hash width", unwind=6, unwindset=TOKEN_UW, timeout=5400, mem_gb=30, tier="experimental")
 
 H("k06d_signature_table", "scan_deflate", ["C06", "C05"], unwind=5, timeout=600,
   claim="next_signature reports a byte pair exactly when it is one of the seven documented signatures, at the right offset, with the right kind",
@@ -371,10 +371,68 @@ for w in ("h3", "h4"):
     # thorough only: on the unchanged tree this harness SUCCEEDS in most builds but in some builds of identical sources
     # (Kani emits std's UB precondition checks in one build and not in the other) CBMC reports realloc/pointer
     # failures that do not reproduce natively -> inconclusive; not stable enough for the quick tier (DESIGN §6)
-    H("k02e_stored_mirror_" + w, "token_predictor", ["C02", "C08"], tier="thorough", unwind=8, unwindset=dict(TOKEN_UW, stored_mirror=8, same_dictionary_updates=18, update_hash=8, predict_block=8, recreate_block=8), timeout=1800, mem_gb=16,
+    H("k02e_stored_mirror_" + w, "token_predictor", ["C02", "C08"], tier="experimental", unwind=8, unwindset=dict(TOKEN_UW, stored_mirror=8, same_dictionary_updates=18, update_hash=8, predict_block=8, recreate_block=8), timeout=1800, mem_gb=16,
       claim="stored block: recreate_block(predict_block(b)) == b, and both sides insert exactly the same positions into the dictionary (every add policy)",
       functions=["TokenPredictor::predict_block / recreate_block (stored arm)", "HashChainHolderImpl::update_hash", "DictionaryAddPolicy::update_hash"],
       bounds="stored blocks of 1..=6 bytes, every parameter vector in estimator_range (all 5 add policies)", assumptions=MODEL_ASSUME[:2] + ["recording codec Rec"])
+
+H("k07c_dyn_header_rt", "huffman_encoding", ["C07", "C05", "C03"], tier="thorough", unwind=6, unwindset={"dyn_header": 66, "decode_symbol": 5, "HuffmanOriginalEncoding.*read": 12, "HuffmanOriginalEncoding.*write": 10,
+  "calculate_huffman_code_tree": 21, "is_valid_huffman_code_lengths": 21, "calc_huffman_codes": 21, "BitWriter::pad": 9, "flush_whole_bytes": 6}, timeout=2400, mem_gb=24,
+  claim="dynamic header: HuffmanOriginalEncoding::read never panics, accepts only code-length tables with exactly HLIT + HDIST entries, and HuffmanOriginalEncoding::write reproduces exactly the bits that were read (every run-length choice incl. code 16 after a zero run)",
+  functions=["HuffmanOriginalEncoding::read", "HuffmanOriginalEncoding::write", "huffman_helper::calculate_huffman_code_tree", "huffman_helper::decode_symbol", "huffman_helper::calc_huffman_codes", "BitWriter::write/pad"],
+  bounds="HLIT = 257, HDIST = 1, HCLEN = 5 with the code-length code {0:2, 8:2, 18:2, 16:3, 17:3} (concrete); all sequences of run-length items and extra bits that fit in 16 bit-reader calls (symbolic)",
+  outside="other code-length codes, HLIT/HDIST slack, tables longer than 16 reads", assumptions=["scripted + symbolic recording bit source (ReadBits seam)", "BitWriter::flush_whole_bytes replaced by a non-reallocating equivalent"])
+
+H("k01a_scan_tiling_paths", "scan_deflate", ["C01", "C05"], tier="experimental", unwind=5, unwindset=SCAN_UW, timeout=3600, mem_gb=30, cbmc_extra=["--paths", "lifo"],
+  claim="experimental: k01a_scan_tiling_pairs under CBMC path-based exploration (no path merging, so the cursor stays concrete on each path)",
+  functions=["scan_deflate::split_into_deflate_streams"], bounds=SCAN_BOUNDS, assumptions=SCAN_CONTRACTS)
+
+for nm, lazy in (("lr_greedy_h3", False), ("lr_lazy_h3", True)):
+    H("k02e_shape_" + nm, "token_predictor", ["C02", "C08"], tier="experimental", unwind=6, unwindset=dict(TOKEN_UW, token_mirror_shape=8), timeout=3600, mem_gb=30,
+      claim="token mirror with concrete structure: text of 6 bytes, tokens [literal, reference]; recreate_block(predict_block(tokens)) == tokens, corrections consumed exactly, identical dictionary updates",
+      functions=TOKEN_FUNCS, bounds="6-byte text (symbolic bytes), [literal, reference(len, dist symbolic)], <= 1 candidate per position/offset, estimator_range with %s matching" % ("lazy" if lazy else "greedy"),
+      assumptions=MODEL_ASSUME + ["recording codec Rec"])
+
+# ---------------------------------------------------------------- thorough-tier deepenings (same lemmas, larger bounds)
+H("k01e_idat_more_layouts", "idat_parse", ["C01", "C05", "C06"], tier="thorough", unwind=6, unwindset=IDAT_UW, timeout=2400, mem_gb=24,
+  claim="parse_idat totality / postconditions / acceptance on further layouts", functions=IDAT_FUNCS[:1], bounds="layouts (12), (3,4)+5 trailing, (5,1), (2,2)+9 trailing; content symbolic", assumptions=IDAT_ASSUME)
+H("k01c_literal_chunks_rt_more", "preflate_container", ["C01", "C13", "C04"], tier="thorough", unwind=9, timeout=1800, mem_gb=16,
+  claim="as k01c_literal_chunks_rt", functions=CONT_FUNCS, bounds="shapes (6,3) (6,6) (2,0)", assumptions=["deflate/PNG arms cut by Err stubs"])
+H("k13a_fragmented_io_more", "preflate_container", ["C13"], tier="thorough", unwind=8, unwindset=K13_UW, timeout=2400, mem_gb=20,
+  claim="as k13a_fragmented_io", functions=CONT_FUNCS, bounds="5-byte file in two chunks (2+3) and one chunk x 4 further fragmentation patterns", assumptions=K13_ASSUME)
+H("k13b_io_faults_more", "preflate_container", ["C13", "C05"], tier="thorough", unwind=8, unwindset=K13_UW, timeout=2400, mem_gb=20,
+  claim="as k13b_io_faults", functions=CONT_FUNCS, bounds="5-byte file in two chunks (10-byte container): source faults at 5, 9, 10; destination fault at 4", assumptions=K13_ASSUME)
+H("k01_gzip_hdr_20", "scan_deflate", ["C06", "C01", "C05"], tier="thorough", unwind=22, unwindset={"gzip_hdr": 22}, timeout=2400, mem_gb=16,
+  claim="as k01_gzip_hdr_16 for inputs of <= 20 bytes", functions=["scan_deflate::skip_gzip_header"], bounds="every input of <= 20 bytes", assumptions=["input seam SrcEof<N>"])
+
+H("k07r_bitreader_step", "bit_reader", ["C03", "C07", "C05"], unwind=7, unwindset={"k07r": 7}, timeout=1200, mem_gb=14,
+  claim="BitReader::get from any valid state and for any request of 0..=32 bits returns exactly the next stream bits (LSB first), advances the byte cursor minimally and keeps the unread bits buffered (one inductive step: streams of any length)",
+  functions=["BitReader::get"], bounds="every state (0..=8 buffered bits, any content) x every request 0..=32 x every 5 following bytes", assumptions=["input seam Src<5>"])
+H("k07s_bitwriter_step", "bit_writer", ["C07", "C02", "C05"], unwind=9, timeout=1200, mem_gb=14,
+  claim="BitWriter::write from any valid state appends exactly the given bits (LSB first), emits every completed byte, keeps < 8 bits pending; BitWriter::pad fills the last byte with the low bits of the padding pattern",
+  functions=["BitWriter::write", "BitWriter::pad"], bounds="every state (0..=7 pending bits) x every value of 1..=25 bits x every padding byte",
+  assumptions=["BitWriter::flush_whole_bytes replaced by its non-reallocating equivalent (the real one is decided by k07t_flush_whole_bytes)"])
+H("k07t_flush_whole_bytes", "bit_writer", ["C07", "C05"], unwind=6, unwindset={"k07t": 35}, timeout=1200, mem_gb=14,
+  claim="the real BitWriter::flush_whole_bytes emits the completed bytes in order and keeps the remaining bits", functions=["BitWriter::flush_whole_bytes"],
+  bounds="pending-bit counts 0..=32 (concrete, looped) x any buffer content")
+H("k07d_canonical_code_5", "huffman_helper", ["C03", "C07", "C05"], tier="experimental", unwind=7, unwindset={"canon": 7, "is_valid_huffman_code_lengths": 18, "calculate_huffman_code_tree": 8, "calc_huffman_codes": 34}, timeout=2400, mem_gb=20,
+  claim="calculate_huffman_code_tree accepts exactly the complete codes; calc_huffman_codes equals the RFC 1951 canonical code; decode_symbol inverts it",
+  functions=["huffman_helper::calculate_huffman_code_tree", "is_valid_huffman_code_lengths", "calc_huffman_codes", "decode_symbol"], bounds="every assignment of lengths 0..=4 to 5 symbols")
+
+H("k01f_deflate_chunk_framing", "preflate_container", ["C01", "C04", "C13"], unwind=8, timeout=1500, mem_gb=16,
+  claim="a DeflateStream chunk written by write_chunk_block is framed so that read_chunk_block hands exactly the stored plaintext and corrections to the reconstruction; the writer reports compressed_size as the file bytes covered",
+  functions=["preflate_container::write_chunk_block (DeflateStream arm)", "preflate_container::read_chunk_block (deflate arm)", "write_varint/read_varint"],
+  bounds="plaintext 2 bytes, corrections 3 bytes (symbolic), compressed_size 1..999", assumptions=["recompress_deflate_stream replaced by an echo stand-in that returns its arguments"])
+H("k01g_idat_chunk_framing", "preflate_container", ["C01", "C04"], tier="experimental", unwind=8, unwindset={"update_cheap": 12, "recreate_idat": 4, "read_from_bytestream": 4, "write_to_bytestream": 4}, timeout=1800, mem_gb=20,
+  claim="a PNG chunk: IDAT descriptor, plaintext and corrections survive write_chunk_block -> read_chunk_block and the real recreate_idat re-chunks the reconstruction's result with the stored zlib header and Adler-32",
+  functions=["write_chunk_block (IDAT arm)", "read_chunk_block (PNG arm)", "IdatContents::write_to_bytestream/read_from_bytestream", "idat_parse::recreate_idat"],
+  bounds="two IDAT chunks (7 + 4), plaintext 1 byte, corrections 2 bytes (symbolic)", assumptions=["recompress_deflate_stream replaced by an echo stand-in", "checksum replaced by a cheap byte mixer"])
+
+H("k01h_idat_arm_reconstructible", "scan_deflate", ["C01"], tier="experimental", unwind=5, unwindset={"next_signature": 1062, "k01h": 6}, timeout=1800, mem_gb=20,
+  claim="every PNG chunk the scanner emits satisfies recreate_idat's precondition: sum(chunk sizes) == compressed_size + 6, for every consumed length the analysis may report",
+  functions=["scan_deflate::split_into_deflate_streams (IDAT arm)", "scan_deflate::next_signature"],
+  bounds="1060-byte file with one IDAT look-alike at offset 4; parse_idat stand-in with concrete sizes (one 1040-byte chunk); analysis reports any consumed length 1..=1034 (symbolic)",
+  assumptions=["parse_idat replaced by a concrete-size stand-in; decompress_deflate_stream replaced by a stand-in that accepts with a symbolic compressed_size"])
 
 
 def version_gate(dst, verif):
